@@ -9,6 +9,7 @@ mod report;
 mod runner;
 mod xrun;
 mod seeds;
+mod conform;
 
 mod cmpx;
 mod c01;
